@@ -22,7 +22,7 @@ for pid in sorted(props.P):
         "replay_cmd_template": "./check %s --replay {path}" % pid,
         "engine": "sa",
         "level_claimed": {"category": "other",
-            "text": "Static analysis of /repo's current source: decides the structural clauses %s — each a necessary condition of the property (a counterexample input/history exists whenever one is false) — on every path / call site / table row of the anchored code. It does NOT decide the behavioural property as a whole: %s." % (", ".join(sorted(p["decided"])), p["declined"]),
+            "text": "Static analysis of /repo's current source: decides the clauses %s — each a necessary condition of the property (a counterexample input/history exists whenever one is false). Structural clauses are decided on every path / call site / table row of the anchored code; the clauses named under `technique` as interpreted are decided by interpreting the anchored functions with the checker's own AST interpreter on finite sample objects, i.e. for those samples and the paths they drive, not for all inputs. It does NOT decide the behavioural property as a whole: %s." % (", ".join(sorted(p["decided"])), p["declined"]),
             "design_ref": "DESIGN.md section 3, %s" % pid},
         "level_note": "Trusted base: CPython ast/symtable/re._parser; Arpeggio semantics as read from its installed source; spec tables transcribed from docs/src/*.md; confirmed callback table of the call graph. Nothing from textX is imported or executed. A construct outside a rule's supported subset or a vanished anchor is an analysis error (exit 2), never a pass.",
         "technique": "static analysis: " + p["technique"] + _evaluated(pid, p),
